@@ -26,7 +26,7 @@ ASSUMPTIONS = [
     "spelling is only demanded for thetas no edit touched and whose (v)xn item no edit touched",
 ]
 MIN_NONTRIVIAL = {"quick": 400, "thorough": 5000}
-REQUIRED_MONITORS = ["ref_params", "reread_params", "reread_rvs", "spelling"]
+REQUIRED_MONITORS = ["ref_params", "reread_params", "reread_rvs", "spelling", "rv_record_text"]
 
 
 def n_cases(tier):
@@ -107,12 +107,12 @@ def edits():
         return pm.set_upper_bounds(m, {p.name: v})
 
     def e_fix(m, r, touched):
-        p = r.choice(list(m.parameters))
+        p = r.choice([p for p in m.parameters if "DUMMY" not in p.name])
         touched.add(p.name)
         return pm.fix_parameters(m, [p.name])
 
     def e_unfix(m, r, touched):
-        fixed = [p.name for p in m.parameters if p.fix]
+        fixed = [p.name for p in m.parameters if p.fix and "DUMMY" not in p.name]
         if not fixed:
             raise ValueError("nothing fixed")
         n = r.choice(fixed)
@@ -147,6 +147,7 @@ def edits():
                  and not (s.expression.free_symbols & {x for x in map(lambda n: __import__("pharmpy").basic.Expr.symbol(n), m.random_variables.etas.names)})]
         if not cands:
             raise ValueError("all parameters have an eta")
+        touched.add("__rv_structure__")
         return pm.add_iiv(m, r.choice(cands), r.choice(["exp", "add", "prop"]))
 
     def e_remove_iiv(m, r, touched):
@@ -155,6 +156,7 @@ def edits():
             raise ValueError("no etas")
         n = r.choice(names)
         touched.add(n)
+        touched.add("__rv_structure__")
         return pm.remove_iiv(m, n)
 
     def e_join(m, r, touched):
@@ -163,6 +165,7 @@ def edits():
             raise ValueError("too few etas")
         sel = r.sample(names, r.randint(2, min(3, len(names))))
         touched.update(sel)
+        touched.add("__rv_structure__")
         return pm.create_joint_distribution(m, sel)
 
     def e_split(m, r, touched):
@@ -172,6 +175,7 @@ def edits():
         d = r.choice(joint)
         sel = r.sample(list(d.names), r.randint(1, len(d.names)))
         touched.update(sel)
+        touched.add("__rv_structure__")
         return pm.split_joint_distribution(m, sel)
 
     def e_error(m, r, touched):
@@ -235,48 +239,85 @@ def theta_spellings(text):
 B_STRATA = ["xn", "multiline_remove"]
 
 
-def run_case(rng, idx, tier):
+def run_edits(c, text, seq, seed, plan=None):
+    """Apply the edit sequence (its random choices seeded by `seed`) to the model read from `text`, judging after
+    every applied edit.  With `plan` (list of (edit name, rng state) of the edits that were applied in another run)
+    exactly those edits are re-applied with the same random choices.  Returns (applied, judged, model, plan);
+    raises denote.Mismatch (with .model/.applied/.plan attached)."""
+    import random
+
     from pharmpy.modeling import read_model_from_string
 
     from vp import denote
-    from vp import nmtran_ref as R
 
-    c = Case()
-    text, meta = gen_layout(rng)
-    try:
-        model = read_model_from_string(text)
-        _ = model.statements
-    except Exception as e:
-        c.refusal = type(e).__name__
-        c.sample = {"text": text.splitlines(), "refused": str(e)[:200]}
-        return c
+    model = read_model_from_string(text)
+    _ = model.statements
     E = edits()
-    names = list(E)
-    k = rng.randint(1, 4)
+    r = random.Random(seed)
     applied = []
+    done_plan = []
     touched = set()
     orig_names = [p.name for p in model.parameters]
-    c.sample = {"layout": text.splitlines(), "applied": applied}
-    # judge also the unedited model once in a while (update_source no-op)
-    seq = [rng.choice(names) for _ in range(k)]
     judged = 0
-    for name in seq:
+    steps = [(n, None) for n in seq] if plan is None else list(plan)
+    for name, state in steps:
+        if state is not None:
+            r.setstate(state)
+        st = r.getstate()
         try:
-            new = E[name](model, rng, touched)
-        except Exception as e:
+            new = E[name](model, r, touched)
+        except Exception:
             c.hit("edit_refused:" + name)
+            if plan is not None:
+                break
             continue
         model = new
         applied.append(name)
+        done_plan.append((name, st))
         try:
-            ok = judge(c, text, model, touched, orig_names)
+            if judge(c, text, model, touched, orig_names):
+                judged += 1
         except denote.Mismatch as mm:
-            key = classify(mm, text, applied, model)
-            c.violate(key, f"after {applied}: {mm.what}", {"layout": text.splitlines(), "code": model.code.splitlines(),
-                                                          "applied": list(applied)})
-            break
-        if ok:
-            judged += 1
+            mm.model = model
+            mm.applied = list(applied)
+            mm.plan = list(done_plan)
+            raise
+    return applied, judged, model, done_plan
+
+
+def run_case(rng, idx, tier):
+    from vp import denote
+
+    c = Case()
+    text, meta = gen_layout(rng)
+    seq = [rng.choice(list(edits())) for _ in range(rng.randint(1, 4))]
+    seed = rng.random()
+    c.sample = {"layout": text.splitlines(), "edits": seq}
+    try:
+        applied, judged, model, _ = run_edits(c, text, seq, seed)
+    except denote.Mismatch as mm:
+        def replay(text2):
+            c2 = Case()
+            try:
+                a2, j2, _, _ = run_edits(c2, text2, seq, seed, plan=mm.plan)
+            except denote.Mismatch as m2:
+                # the repaired layout still fails: accepted only if that remaining mismatch is itself attributed
+                # to another listed mechanism (without a further replay)
+                return m2.applied == mm.applied and classify(m2, text2, m2.applied, m2.model, None) is not None
+            return j2 >= 1 and a2 == mm.applied
+
+        key = classify(mm, text, mm.applied, mm.model, replay)
+        c.hit("classified" if key else "unclassified")
+        c.violate(key, f"after {mm.applied}: {mm.what}", {"layout": text.splitlines(), "code": mm.model.code.splitlines(),
+                                                         "applied": mm.applied})
+        c.fp = fp_of(text, mm.applied)
+        c.nontrivial = True
+        return c
+    except Exception as e:
+        c.refusal = type(e).__name__
+        c.sample["refused"] = str(e)[:200]
+        return c
+    c.sample["applied"] = applied
     c.fp = fp_of(text, applied)
     c.nontrivial = judged >= 1
     return c
@@ -304,18 +345,46 @@ def judge(c, orig_text, model, touched, orig_names):
         raise denote.Mismatch(f"generated code cannot be read back: {type(e).__name__}: {str(e)[:120]}")
     a, b = model.parameters, re_model.parameters
     c.hit("reread_params")
-    if list(a.names) != list(b.names):
-        raise denote.Mismatch(f"[reread] parameter names {list(a.names)} vs {list(b.names)}")
-    for p, q in zip(a, b):
-        if not (denote.close(float(p.init), float(q.init), 1e-12) and _beq(p.lower, q.lower) and _beq(p.upper, q.upper) and p.fix == q.fix):
-            raise denote.Mismatch(f"[reread] parameter {p.name}: model (init={p.init}, lower={p.lower}, upper={p.upper}, fix={p.fix}) "
-                                  f"vs re-read (init={q.init}, lower={q.lower}, upper={q.upper}, fix={q.fix})")
+    dummy = {"DUMMYOMEGA", "DUMMYETA"}
+    if sorted(set(a.names) - dummy) != sorted(set(b.names) - dummy):
+        mm = denote.Mismatch(f"[reread] parameter names {sorted(a.names)} vs {sorted(b.names)}")
+        mm.pos_equal = _positionally_equal(model, re_model)
+        raise mm
+    rvp_a = set(model.random_variables.parameter_names)
+    for p in a:
+        if p.name in dummy:
+            continue
+        q = b[p.name]
+        # bounds exist in the text only for thetas; $OMEGA/$SIGMA carry none (the reader assumes 0 for variances)
+        bounds_ok = p.name in rvp_a or (_beq(p.lower, q.lower) and _beq(p.upper, q.upper))
+        if not (denote.close(float(p.init), float(q.init), 1e-12) and bounds_ok and p.fix == q.fix):
+            mixed = False
+            if p.name in rvp_a and denote.close(float(p.init), float(q.init), 1e-12):
+                fixmap = {x.name: x.fix for x in a}
+                for dist in model.random_variables:
+                    ps = {str(x) for x in dist.variance.free_symbols} if len(dist.names) == 1 else {
+                        str(x) for i in range(len(dist.names)) for j in range(len(dist.names)) for x in dist.variance[i, j].free_symbols}
+                    if p.name in ps and len({fixmap.get(n) for n in ps}) > 1:
+                        mixed = True
+            mm = denote.Mismatch(f"[reread] parameter {p.name}: model (init={p.init}, lower={p.lower}, upper={p.upper}, fix={p.fix}) "
+                                 f"vs re-read (init={q.init}, lower={q.lower}, upper={q.upper}, fix={q.fix})")
+            mm.mixed_fix_block = mixed
+            raise mm
     c.hit("reread_rvs")
     ra, rb = model.random_variables, re_model.random_variables
-    sa = [(tuple(d.names), d.level, str(d.variance)) for d in ra]
-    sb = [(tuple(d.names), d.level, str(d.variance)) for d in rb]
+    isdummy = lambda d: any("dummy" in n.lower() for n in d.names) or "DUMMYOMEGA" in str(d.variance)  # noqa: E731
+    sa = sorted((tuple(d.names), d.level, str(d.variance)) for d in ra if not isdummy(d))
+    sb = sorted((tuple(d.names), d.level, str(d.variance)) for d in rb if not isdummy(d))
     if sa != sb:
-        raise denote.Mismatch(f"[reread] random variables {sa} vs {sb}")
+        mm = denote.Mismatch(f"[reread] random variables {sa} vs {sb}")
+        # same after giving the epsilons positional names?
+        ea = [(len(d.names), d.level, str(d.variance)) for d in ra.epsilons]
+        eb = [(len(d.names), d.level, str(d.variance)) for d in rb.epsilons]
+        eta_a = sorted((tuple(d.names), d.level, str(d.variance)) for d in ra.etas if not isdummy(d))
+        eta_b = sorted((tuple(d.names), d.level, str(d.variance)) for d in rb.etas if not isdummy(d))
+        mm.eps_names_only = (ea == eb and eta_a == eta_b)
+        mm.pos_equal = _positionally_equal(model, re_model)
+        raise mm
     # (c) spelling of untouched thetas
     old = theta_spellings(orig_text)
     new = theta_spellings(code)
@@ -337,7 +406,65 @@ def judge(c, orig_text, model, touched, orig_names):
                                           q=("spelling", n))
     else:
         c.hit("spelling_not_judged_count_mismatch")
+    # (d) $OMEGA / $SIGMA records none of whose parameters / random variables was touched keep their text
+    structural = touched & {"__eps__", "__rv_structure__"}
+    for kind in ("OMEGA", "SIGMA"):
+        if kind == "SIGMA" and "__eps__" in touched:
+            continue
+        old_recs = [cont for n, cont in R.split_records(orig_text) if n == kind]
+        new_recs = [cont for n, cont in R.split_records(code) if n == kind]
+        if "__rv_structure__" in touched and kind == "OMEGA":
+            continue
+        rv_touched = any(t in _rv_param_names(orig_names, len(old)) or t.startswith("ETA") for t in touched)
+        if rv_touched:
+            continue
+        c.hit("rv_record_text")
+        if [r.strip() for r in old_recs] != [r.strip() for r in new_recs]:
+            raise denote.Mismatch(f"[spelling] untouched ${kind} records changed: {old_recs} -> {new_recs}", q=("rvtext", kind))
     return True
+
+
+def _positionally_equal(model, re_model):
+    """Parameters and random variables agree when matched by position instead of by name."""
+    from vp import denote
+
+    def sig(m):
+        rvp = set(m.random_variables.parameter_names)
+        th = [(float(p.init), float(p.lower), float(p.upper), p.fix) for p in m.parameters if p.name not in rvp
+              and "DUMMY" not in p.name]
+        inits = {p.name: float(p.init) for p in m.parameters}
+        blocks = []
+        for d in list(m.random_variables.etas) + list(m.random_variables.epsilons):
+            if any("dummy" in n.lower() for n in d.names) or "DUMMYOMEGA" in str(d.variance):
+                continue
+            v = d.variance
+            n = len(d.names)
+            M = [[denote.ev(v, inits)]] if n == 1 else [[denote.ev(v[i, j], inits) for j in range(n)] for i in range(n)]
+            blocks.append((d.level, n, M))
+        return th, blocks
+
+    try:
+        ta, ba = sig(model)
+        tb, bb = sig(re_model)
+    except Exception:
+        return False
+    if len(ta) != len(tb) or len(ba) != len(bb):
+        return False
+    for x, y in zip(ta, tb):
+        if not (abs(x[0] - y[0]) <= 1e-12 * max(1, abs(x[0])) and x[1:] == y[1:]):
+            return False
+    for (l1, n1, M1), (l2, n2, M2) in zip(ba, bb):
+        if (l1, n1) != (l2, n2):
+            return False
+        for r1, r2 in zip(M1, M2):
+            for u, w in zip(r1, r2):
+                if abs(u - w) > 1e-9 * max(1, abs(u)):
+                    return False
+    return True
+
+
+def _rv_param_names(orig_names, n_theta):
+    return set(orig_names[n_theta:])
 
 
 def _is_rv_param(n, names, n_theta):
@@ -351,5 +478,87 @@ def _beq(a, b):
     return abs(a - b) <= 1e-12 * max(1.0, abs(a), abs(b))
 
 
-def classify(mm, orig_text, applied, model):
+def expand_layout(text, thetas=True, omegas=False):
+    """The same layout with every theta in its own single-item $THETA record (no (v)xn, no multi-item records)
+    and/or every diagonal $OMEGA/$SIGMA value in its own record."""
+    from vp import nmtran_ref as R
+
+    out = []
+    done = False
+    for name, content in R.split_records(text):
+        if name in ("OMEGA", "SIGMA") and omegas and not re.search(r"\bBLOCK\b", content, re.I):
+            for b in R.parse_omega_records([content]):
+                out.append(f"${name} {b.matrix[0][0]!r}{' FIX' if b.fix else ''}\n")
+            continue
+        if name == "THETA" and thetas:
+            if done:
+                continue
+            done = True
+            ths = R.parse_theta_records([c for n, c in R.split_records(text) if n == "THETA"])
+            for t in ths:
+                lo = "-INF" if math.isinf(t.lower) else repr(t.lower)
+                up = "" if math.isinf(t.upper) else f",{t.upper!r}"
+                item = f"({lo},{t.init!r}{up})" if (not math.isinf(t.lower) or up) else f"{t.init!r}"
+                out.append(f"$THETA {item}{' FIX' if t.fix else ''}\n")
+        else:
+            out.append(f"${name}{content}")
+    return "".join(out)
+
+
+def classify(mm, orig_text, applied, model, replay=None):
+    """Mechanism attribution.  replay(text) re-runs the same edit sequence on another layout and returns True if it
+    is judged without mismatch (delta check)."""
+    from vp import nmtran_ref as R
+
+    what = mm.what
+    if getattr(mm, "mixed_fix_block", False):
+        return "C04/partially-fixed-block"
+    if "cannot be read back" in what and "FIX inside parentheses" in what:
+        return "C04/fix-inside-parentheses-with-new-bounds"
+    if "block" in what and "fixedness: text False, model True" in what and re.search(r"BLOCK\s*\(\d+\)[^$]*FIX", orig_text, re.I | re.S):
+        return "C04/block-fix-lost-on-restructure"
+    if getattr(mm, "eps_names_only", False):
+        return "C04/epsilon-names-not-written"
+    if "[reread]" in what and getattr(mm, "pos_equal", False) and ("parameter names" in what or "random variables" in what):
+        return "C04/default-names-shift-after-removal"
+    thetas_txt = "\n".join(c for n, c in R.split_records(orig_text) if n == "THETA")
+    multi = bool(re.search(r"\)\s*x\s*\d", thetas_txt)) or any(
+        len(theta_spellings("$THETA" + c)) > 1 for n, c in R.split_records(orig_text) if n == "THETA")
+    if "[spelling] untouched $OMEGA" in what or "[spelling] untouched $SIGMA" in what:
+        kind = "OMEGA" if "$OMEGA" in what else "SIGMA"
+        old = [c for n, c in R.split_records(orig_text) if n == kind]
+        new = [c for n, c in R.split_records(model.code) if n == kind]
+        if len(old) == len(new):
+            ok = True
+            for o, nw in zip(old, new):
+                if o.strip() == nw.strip():
+                    continue
+                scaled = re.search(r"\b(SD|STANDARD|CORR\w*|CHOL\w*)\b", o, re.I)
+                to = re.findall(NUM, R.strip_comments(o))
+                tn = re.findall(NUM, R.strip_comments(nw))
+                same_vals = len(to) == len(tn) and all(abs(float(a) - float(b)) <= 1e-12 * max(1, abs(float(a))) for a, b in zip(to, tn))
+                if not (scaled and same_vals):
+                    ok = False
+            if ok:
+                return "C04/omega-scaled-block-respelled"
+        return None
+    if multi and replay is not None and ("THETA(" in what or "number of thetas" in what or "[reread] parameter" in what
+                                         or "cannot be read back" in what):
+        try:
+            if replay(expand_layout(orig_text)):
+                if re.search(r"\)\s*x\s*\d", thetas_txt):
+                    return "C04/theta-xn-item-edit"
+                return "C04/theta-multi-item-record-edit"
+        except Exception:
+            pass
+    multi_omega = any(not re.search(r"\bBLOCK\b", c, re.I) and len(R.parse_omega_records([c])) > 1
+                      for n, c in R.split_records(orig_text) if n in ("OMEGA", "SIGMA"))
+    if multi_omega and replay is not None:
+        try:
+            if replay(expand_layout(orig_text, thetas=False, omegas=True)):
+                return "C04/omega-multi-value-record-restructure"
+            if multi and replay(expand_layout(orig_text, thetas=True, omegas=True)):
+                return "C04/omega-multi-value-record-restructure"
+        except Exception:
+            pass
     return None
